@@ -108,9 +108,12 @@ theorem stepOpt_frame (strs : List (String × Target)) (oi : OptItem) (run : Run
           | opt o =>
             simp only [lastAction]
             rw [takeAction_frame]
-            cases takeAction bind o (toks.erase "--") st1 with
-            | error e => rfl
-            | ok st2 => rfl
+            by_cases hdd : (toks == ["--"]) = true
+            · simp only [hdd, if_true]
+            · simp only [hdd, Bool.false_eq_true, if_false]
+              cases takeAction bind o (toks.erase "--") st1 with
+              | error e => rfl
+              | ok st2 => rfl
 
 theorem runSegs_frame (strs : List (String × Target)) : ∀ (ss : List (OptItem × Run)) (st : PState),
     runSegs bind strs ss (pushB x st) = mapOk (pushB x) (runSegs bind strs ss st) := by
